@@ -5,6 +5,7 @@ import UtilModel.Model.Size
 import UtilModel.Model.UU
 import UtilModel.Model.Hist
 import UtilModel.Model.TestKit
+import UtilModel.Model.Extra
 /-!
 # Line-protocol driver: one operation per input line, one result line per operation.
 Byte strings are lower-case hex, `-` for the empty string. See DESIGN.md Appendix A.
@@ -170,6 +171,132 @@ def tkHelperBeh (s : String) : Option (Option TestKit.HelperBeh) :=
 def initRecv : String → Option Hist.Recv
   | "date" => some (.date Date.zero) | "roman" => some (.roman 0) | "sem" => some (.sem Sem.Ver.zero)
   | "size" => some (.size 0) | "uu" => some (.uu UU.ID.zero) | _ => none
+
+
+/-! ### EXTRA ops (DESIGN.md §9.5): behaviour outside the twenty properties -/
+
+/-- `d` = the package's default function stays in the variable; `s:<outhex>:<mode>:<tag>` = scripted replacement -/
+def xScript (s : String) : Option (Option Extra.Script) :=
+  if s == "d" then some none else
+  match s.splitOn ":" with
+  | ["s", h, m, t] => do let o ← unhex h; let m ← m.toNat?; let t ← t.toNat?; pure (some ⟨o, m, t⟩)
+  | _ => none
+
+def xFmt {V} (dflt : Extra.Fmt V) : Option Extra.Script → Extra.Fmt V
+  | none => dflt
+  | some s => s.fmt
+
+/-- `d` or `s:<v1,v2,…>:<mode>:<tag>`; the value fields are parsed by `val` -/
+def xPScript {V} (val : List String → Option V) (s : String) : Option (Option (Extra.PScript V)) :=
+  if s == "d" then some none else
+  match s.splitOn ":" with
+  | ["s", v, m, t] => do let v ← val (v.splitOn ","); let m ← m.toNat?; let t ← t.toNat?; pure (some ⟨v, m, t⟩)
+  | _ => none
+
+def xRes : Extra.Res → String
+  | .ok b => hex b | .err t => s!"E{t}" | .panic => "P"
+
+def xPRes : Extra.PRes → String
+  | .ok => "ok" | .err (.lib e) => "err " ++ e.name | .err (.custom t) => s!"err custom:{t}" | .panic => "panic"
+
+def xNumVal : Constraint.NumVal → String
+  | .int v => s!"i:{v}" | .flt m e => s!"f:{m}:{e}"
+
+/-- kinds of `constraint.info`; named types have the kind of their underlying type -/
+def xKind (s : String) : Option Size.Kind :=
+  match s with
+  | "myInt16" => some .int16 | "myFloat64" => some .float64 | _ => sizeKind s
+
+def xDateVal : List String → Option Date.Date
+  | [y, m, d] => do let y ← y.toInt?; let m ← m.toInt?; let d ← d.toInt?; pure (Date.new y m d)
+  | _ => none
+
+def xSemVal : List String → Option Sem.Ver
+  | [ma, mi, pa, pre, build] => do
+    let ma ← ma.toNat?; let mi ← mi.toNat?; let pa ← pa.toNat?; let pre ← unhex pre; let build ← unhex build
+    pure ⟨ma, mi, pa, pre, build⟩
+  | _ => none
+
+def xUUVal : List String → Option UU.ID
+  | [hi, lo] => do let hi ← hi.toNat?; let lo ← lo.toNat?; pure ⟨BitVec.ofNat 64 hi, BitVec.ofNat 64 lo⟩
+  | _ => none
+
+def xNatVal : List String → Option Nat
+  | [n] => n.toNat?
+  | _ => none
+
+def stepExtra (line : String) : String :=
+  let bad := "bad-op"
+  match line.splitOn " " with
+  | "sem.new" :: ma :: mi :: pa :: extra =>
+    (do let ma ← ma.toNat?; let mi ← mi.toNat?; let pa ← pa.toNat?; let ex ← extra.mapM unhex
+        pure (outcomeStr verStr (Sem.new ma mi pa ex))).getD bad
+  | ["sem.misc", ma, mi, pa, pre, build] =>
+    (do let v ← xSemVal [ma, mi, pa, pre, build]
+        pure s!"{verStr v.core} {b01 v.isZero} {v.compare v.core} {v.core.compare v}").getD bad
+  | ["sem.consts"] => s!"{hex Sem.zeroString} {hex Sem.zeroStringTag}"
+  | ["date.acc", y, m, d] =>
+    (do let x ← xDateVal [y, m, d]
+        let (cy, cm, cd) := x.timeCivil
+        let v := match x.value with | .ok t => s!"ok {t - unixToAbs}" | .err e => "err " ++ e.name | .panic => "panic"
+        pure s!"{x.yearOf} {x.monthOf} {x.dayOf} {dateStr x} {x.timeAbs - unixToAbs} {cy} {cm} {cd} {v}").getD bad
+  | ["fmtvar", "date", y, m, d, sc] =>
+    (do let x ← xDateVal [y, m, d]; let sc ← xScript sc
+        let F := xFmt Date.defaultFmt sc
+        let f := fun (verb : Nat) => hex (Date.formatVerbWith F x verb)
+        pure s!"{xRes (Date.marshalTextWith F x)} {hex (Date.stringWith F x)} {f 115} {f 101} {f 98} {f 118}").getD bad
+  | ["fmtvar", "roman", n, df, sc] =>
+    (do let n ← n.toNat?; let df ← df.toNat?; let sc ← xScript sc
+        let F := xFmt Roman.defaultFmt sc
+        let f := fun (verb : Nat) => hex (Roman.formatVerbWith F df n verb)
+        pure s!"{xRes (Roman.marshalTextWith F df n)} {hex (Roman.stringWith F df n)} {f 82} {f 114} {f 76} {f 108} {f 115}").getD bad
+  | ["fmtvar", "sem", ma, mi, pa, pre, build, sc] =>
+    (do let v ← xSemVal [ma, mi, pa, pre, build]; let sc ← xScript sc
+        let F := xFmt Sem.defaultFmt sc
+        let f := fun (verb : Nat) => hex (Sem.formatVerbWith F v verb)
+        pure s!"{xRes (Sem.marshalTextWith F v)} {hex (Sem.stringWith F v)} {hex (Sem.stringTagWith F v)} {f 115} {f 116} {f 118}").getD bad
+  | ["fmtvar", "size", n, cfg, sc] =>
+    (do let n ← n.toNat?; let c ← cfg.toNat?; let sc ← xScript sc
+        let mc : Size.MarshalCfg := ⟨c % 2 == 1, c / 2 % 2 == 1, c / 4 % 2 == 1⟩
+        let F := xFmt Size.defaultFmt sc
+        pure s!"{hex (Size.stringWith F n)} {xRes (Size.prettyStringWith F n)} {xRes (Size.prettyHTMLWith F n)} {xRes (Size.marshalTextWith mc F n)} {xRes (Size.marshalJSONWith mc F n)} {hex (Size.bytesString n)}").getD bad
+  | ["fmtvar", "uu", hi, lo, sc] =>
+    (do let i ← xUUVal [hi, lo]; let sc ← xScript sc
+        let F := xFmt UU.defaultFmt sc
+        let f := fun (verb : Nat) => hex (UU.formatVerbWith F i verb)
+        pure s!"{xRes (UU.marshalTextWith F i)} {hex (UU.stringWith F i)} {hex (UU.urnWith F i)} {f 115} {f 117} {f 118}").getD bad
+  | ["parservar", "date", y, m, d, sc, h] =>
+    (do let r ← xDateVal [y, m, d]; let sc ← xPScript xDateVal sc; let s ← unhex h
+        let P := match sc with | none => Date.defaultPrs | some p => p.prs
+        let (r', res) := Date.unmarshalTextWith P r s
+        pure s!"{xPRes res} = {dateStr r'}").getD bad
+  | ["parservar", "roman", n, sc, h] =>
+    (do let r ← n.toNat?; let sc ← xPScript xNatVal sc; let s ← unhex h
+        let P := match sc with | none => Roman.defaultPrs | some p => p.prsNat
+        let (r', res) := Roman.unmarshalTextWith P r s
+        pure s!"{xPRes res} = {r'}").getD bad
+  | ["parservar", "sem", ma, mi, pa, pre, build, sc, h] =>
+    (do let r ← xSemVal [ma, mi, pa, pre, build]; let sc ← xPScript xSemVal sc; let s ← unhex h
+        let P := match sc with | none => Sem.defaultPrs | some p => p.prs
+        let (r', res) := Sem.unmarshalTextWith P r s
+        pure s!"{xPRes res} = {verStr r'}").getD bad
+  | ["parservar", "size", which, dr, n, sc, h] =>
+    (do let dr ← dr.toNat?; let r ← n.toNat?; let sc ← xPScript xNatVal sc; let s ← unhex h
+        let P := match sc with | none => Size.defaultPrs | some p => p.prsNat
+        let (r', res) ← (match which with
+          | "t" => some (Size.unmarshalTextWith P dr r s)
+          | "j" => some (Size.unmarshalJSONWith P dr r s)
+          | _ => none)
+        pure s!"{xPRes res} = {r'}").getD bad
+  | ["parservar", "uu", hi, lo, sc, h] =>
+    (do let r ← xUUVal [hi, lo]; let sc ← xPScript xUUVal sc; let s ← unhex h
+        let P := match sc with | none => UU.defaultPrs | some p => p.prs
+        let (r', res) := UU.unmarshalTextWith P r s
+        pure s!"{xPRes res} = {r'.hi.toNat} {r'.lo.toNat}").getD bad
+  | ["constraint.info", kind] =>
+    (do let k ← xKind kind
+        pure s!"{b01 (Constraint.isFloat k)} {b01 (Constraint.isSigned k)} {xNumVal (Constraint.min k)} {xNumVal (Constraint.max k)} {xNumVal (Constraint.smallestNonzero k)} {Constraint.sizeBytes k} {Constraint.sizeBits k}").getD bad
+  | _ => bad
 
 def step (line : String) : String :=
   let bad := "bad-op"
@@ -340,7 +467,7 @@ def step (line : String) : String :=
     (do let r ← initRecv ty
         let ops ← ops.mapM parseHOp
         pure (" | ".intercalate ((Hist.run r ops).map fun (r', res) => resStr res ++ " = " ++ recvStr r'))).getD bad
-  | _ => bad
+  | _ => stepExtra line
 
 partial def loop (h : IO.FS.Stream) (out : IO.FS.Stream) : IO Unit := do
   let line ← h.getLine
